@@ -1,24 +1,23 @@
 /-
 Line-protocol driver for C16.
 
-(a) patches <grouped 0|1> <vulns> <oldreqs> <table> <schedule>
+(a) patches <grouped 0|1>[m|p] <vulns> <oldreqs> <table> <schedule>
       vulns    = hex,hex,…                       initial vulnerability ids (resolved.Vulns)
       oldreqs  = name:ver[:key],…                requirements of the original manifest (hex); key = npm alias (KnownAs), default the name
       table    = task=E | task=reqs@vulns | …    `|`-separated; task = hex.hex.… (the id list handed to patchFunc);
                                                  E = the strategy failed; reqs = name:ver,… of the patched manifest;
                                                  vulns = ids still/newly present after the patch; absent task = E
       schedule = task/task/…                     the order in which results were delivered (by task value)
-    reply: res=<patches|unspecified> done=<0|1> spec=<patches> cmpeq=<0|1> order=<0|1> n=<#collected> tasks=<#delivered>
+    reply: res=<patches|unspecified> done=<0|1> spec=<patches> order=<0|1>      ([m|p] = Maven / PyPI version order for step 5)
       patches  = patch;patch;…   patch = name:from:to:tr:alias,…~fixed,…~introduced,…   (hex, `-` = empty; alias = dep.KnownAs of the update's Type)
       spec     = result of the breadth-first closure (schedule-free specification)
-      cmpeq    = CmpEqImpliesEq holds for the collected patches
       order    = every target version parses or none does (hypothesis of C16_patchcmp_order); when 0 the comparator is
                  not a strict weak order, `slices.SortFunc`'s result is unspecified and res=unspecified on both sides
 (a') pfree <grouped> <vulns> <oldreqs> <table> g<GOMAXPROCS>r<repetition>
-    the real ComputePatches ran ungated under the Go scheduler; reply: spec=<patches> cmpeq=<0|1> order=<0|1> nspec=<n>
+    the real ComputePatches ran ungated under the Go scheduler; reply: spec=<patches> order=<0|1>
 (b) cache <keys> <acts>
       keys = k,k,…   key of caller 0,1,…          acts = L<t> | P<t>:<v|err> | S<k=v;…|-> | G   (comma separated)
-    reply: ret=<ok<v>|err|stuck,…> f=<nfetch 0>,<nfetch 1> cls=<r|w|f per L> maps=<k=v;…/…> late=<0|1>
+    reply: ret=<ok<v>|err|stuck,…> f=<nfetch 0>,<nfetch 1> cls=<r|w|f per L> maps=<k=v;…/…>
 -/
 import Scalibr.Base.Wire
 import Scalibr.Model.Worklist
@@ -71,42 +70,67 @@ def showPatch (p : Patch) : String :=
 
 def showPatches (ps : List Patch) : String := joinWith ";" (ps.map showPatch)
 
-def vcDrv : Str → Str → Int := verCmp parseMajor (fun a b => cmpInt a b)
+/-- version ranking per ecosystem of the universe ("" npm, "m" Maven, "p" PyPI), asserted against deps.dev's semver systems by the
+    generator at start-up (`checkEcos`): npm `N.0.0` ↦ N; Maven / PyPI: `N.0` and `N.0.0` are two spellings of one version
+    (rank 2N+1), `N.0-rc1` resp. `N.0rc1` is the pre-release just below (rank 2N); anything else does not parse -/
+def stripSuffix? (s suf : Str) : Option Str :=
+  if suf.length ≤ s.length ∧ s.drop (s.length - suf.length) = suf then some (s.take (s.length - suf.length)) else none
 
-def cmpEqB (c : List Patch) : Bool :=
-  c.all fun a => c.all fun b => !(Patch.compare vcDrv a b == 0) || a == b
+def decimal? (ds : Str) : Option Nat :=
+  if ds.isEmpty || !ds.all (fun d => 48 ≤ d && d ≤ 57) || (ds.length > 1 && ds.head? = some 48) then none
+  else some (ds.foldl (fun acc d => acc * 10 + (d - 48)) 0)
 
-def orderB (c : List Patch) : Bool :=
+def parseEco (eco : String) (s : Str) : Option Nat :=
+  if eco = "" then parseMajor s else
+  let pre : Str := if eco = "m" then [46, 48, 45, 114, 99, 49] else [46, 48, 114, 99, 49]     -- ".0-rc1" / ".0rc1"
+  match (stripSuffix? s pre).bind decimal? with
+  | some n => some (2 * n)
+  | none =>
+    match (stripSuffix? s [46, 48, 46, 48]).bind decimal? with
+    | some n => some (2 * n + 1)
+    | none => ((stripSuffix? s [46, 48]).bind decimal?).map (fun n => 2 * n + 1)
+
+def vcDrv (eco : String) : Str → Str → Int := verCmp (parseEco eco) (fun a b => cmpInt a b)
+
+def orderB (eco : String) (c : List Patch) : Bool :=
   let vtos := c.flatMap (fun p => p.updates.map (·.vto))
-  vtos.all (fun v => (parseMajor v).isSome) || vtos.all (fun v => (parseMajor v).isNone)
+  vtos.all (fun v => (parseEco eco v).isSome) || vtos.all (fun v => (parseEco eco v).isNone)
 
-/-- the schedule-free part of the reply: the breadth-first closure (specification) and the two hypotheses of C16_final
+/-- the schedule-free part of the reply: the breadth-first closure (specification) and the hypothesis of C16_final_partial
     evaluated on it (by C16_confluent every complete schedule collects a permutation of the same patches) -/
-def specPart (fn : Task → Option Patch) (grouped : Bool) (vulns : List Str) : String :=
+def specPart (eco : String) (fn : Task → Option Patch) (grouped : Bool) (vulns : List Str) : String :=
   let sf := fifo (outCP fn) (spawnCP fn grouped) 4096 (initCP vulns)
   if sf.pending.isEmpty then
-    s!"spec={showPatches (sortCompact vcDrv sf.collected)} cmpeq={boolStr (cmpEqB sf.collected)} order={boolStr (orderB sf.collected)} nspec={sf.collected.length}"
-  else "spec=nonterminating cmpeq=0 order=0 nspec=0"
+    s!"spec={showPatches (sortCompact (vcDrv eco) sf.collected)} order={boolStr (orderB eco sf.collected)}"
+  else "spec=nonterminating order=0"
+
+/-- `<0|1>[m|p]`: spawning mode and ecosystem -/
+def modeOf (g : String) : Option (Bool × String) :=
+  match g.toList with
+  | c :: rest => (boolOf? (String.ofList [c])).bind fun b =>
+      let e := String.ofList rest
+      if e = "" || e = "m" || e = "p" then some (b, e) else none
+  | [] => none
 
 def handlePatches (g vs rq tb sc : String) : String :=
-  match boolOf? g, strsOf vs ",", reqsOf rq, tableOf tb, (listOf sc "/").mapM (fun t => strsOf t ".") with
-  | some grouped, some vulns, some oldReqs, some tbl, some sched =>
+  match modeOf g, strsOf vs ",", reqsOf rq, tableOf tb, (listOf sc "/").mapM (fun t => strsOf t ".") with
+  | some (grouped, eco), some vulns, some oldReqs, some tbl, some sched =>
     let fn := patchFnOf oldReqs vulns tbl
     let out := outCP fn
     let sp := spawnCP fn grouped
     let s0 := initCP vulns
-    let spec := specPart fn grouped vulns
+    let spec := specPart eco fn grouped vulns
     match execTasks out sp sched s0 with
     | none => "res=bad-schedule done=0 " ++ spec
     | some s =>
-      let res := if orderB s.collected then showPatches (sortCompact vcDrv s.collected) else "unspecified"
-      s!"res={res} done={boolStr s.pending.isEmpty} {spec} n={s.collected.length} tasks={sched.length}"
+      let res := if orderB eco s.collected then showPatches (sortCompact (vcDrv eco) s.collected) else "unspecified"
+      s!"res={res} done={boolStr s.pending.isEmpty} {spec}"
   | _, _, _, _, _ => "bad-op"
 
 /-- free run (no schedule recorded): only the specification is printed -/
 def handleFree (g vs rq tb : String) : String :=
-  match boolOf? g, strsOf vs ",", reqsOf rq, tableOf tb with
-  | some grouped, some vulns, some oldReqs, some tbl => specPart (patchFnOf oldReqs vulns tbl) grouped vulns
+  match modeOf g, strsOf vs ",", reqsOf rq, tableOf tb with
+  | some (grouped, eco), some vulns, some oldReqs, some tbl => specPart eco (patchFnOf oldReqs vulns tbl) grouped vulns
   | _, _, _, _ => "bad-op"
 
 /-! ### cache -/
@@ -166,7 +190,7 @@ def handleCache (ks as : String) : String :=
     let s := wakeAll s
     let ret := (List.range n).map fun t => match s.pcs t with
       | .done _ (.ok v) => s!"ok{v}" | .done _ .err => "err" | _ => "stuck"
-    s!"ret={joinWith "," ret} f={s.nfetch 0},{s.nfetch 1} cls={joinWith "" cls} maps={joinWith "/" (s.maps.reverse.map showMap)} late={boolStr s.lateFetch}"
+    s!"ret={joinWith "," ret} f={s.nfetch 0},{s.nfetch 1} cls={joinWith "" cls} maps={joinWith "/" (s.maps.reverse.map showMap)}"
   | _, _ => "bad-op"
 
 def handle (line : String) : String :=
